@@ -5,11 +5,13 @@ import (
 	"encoding/hex"
 	"encoding/json"
 	"fmt"
+	"io"
 	"os"
 	"os/exec"
 	"sort"
 	"strings"
 
+	seccomp "github.com/elastic/go-seccomp-bpf"
 	"github.com/elastic/go-seccomp-bpf/arch"
 
 	"verif/harness/evid"
@@ -201,16 +203,170 @@ func checkC12(tier, replay string) int {
 			ctx.Violation("C12:"+t+":nondeterministic", fmt.Sprintf("%s: the name table differs between %d fresh processes (%d distinct contents)", t, procs, len(set)), map[string]any{"table": t})
 		}
 	}
-	ctx.Cov["evaluations"] = entries + compared + aliasChecks
+	// (g) the tables are read-only data: no sequence of library operations changes them
+	stabSeqs, stabOps := c12Stability(ctx, tier)
+	ctx.Cov["operation_sequences_after_which_the_tables_were_rehashed"] = stabSeqs
+	ctx.Cov["operation_alphabet"] = stabOps
+	ctx.Cov["evaluations"] = entries + compared + aliasChecks + stabSeqs
 	ctx.Cov["distinct_nontrivial"] = compared
 	ctx.Cov["table_entries_checked_both_directions"] = entries
 	ctx.Cov["entries_compared_with_an_independent_source"] = compared
 	ctx.Cov["entries_no_oracle_lists"] = unoracled
 	ctx.Cov["alias_and_unsupported_spellings"] = aliasChecks
 	ctx.Cov["fresh_processes_compared"] = procs
-	ctx.Cov["rule"] = "every (number, name) and (name, number) entry of the five tables is checked for mutual inversion and unambiguity, compared with every independent source that lists the name (kernel UAPI unistd headers of this image, Go's syscall tables, x/sys v0.48 tables; vendored in oracles.json) and for name agreement at the same number; every architecture variable's ID with AUDIT_ARCH_* from linux/audit.h; every alias in all single-letter case variants; 31 table-less or unknown names in case variants; table contents across fresh processes; non-trivial = entries for which an independent source exists"
+	ctx.Cov["rule"] = "every (number, name) and (name, number) entry of the five tables is checked for mutual inversion and unambiguity, compared with every independent source that lists the name (kernel UAPI unistd headers of this image, Go's syscall tables, x/sys v0.48 tables; vendored in oracles.json) and for name agreement at the same number; every architecture variable's ID with AUDIT_ARCH_* from linux/audit.h; every alias in all single-letter case variants; 31 table-less or unknown names in case variants; table contents across fresh processes; table contents (commutative hash of both maps of all five tables plus ID/Name) after every sequence of library operations up to the stated depth over an alphabet of Validate/Assemble/Dump with canonical, re-cased, SYS_/__NR_/sys_-prefixed, foreign-architecture, numeric, empty and unknown names on every architecture, with and without conditions, and GetInfo with alias/unsupported spellings - the state must stay the initial one; non-trivial = entries for which an independent source exists"
 	ctx.Sample(map[string]any{"table": "x86_64", "name": "execve", "library": arch.X86_64.SyscallNames["execve"], "kernel_uapi": o.Tables["x86_64"]["kernel_uapi"]["execve"], "go_syscall": o.Tables["x86_64"]["go_syscall"]["execve"]})
 	ctx.Sample(map[string]any{"alias": "AMD64", "resolves_to": "x86_64"})
 	ctx.Assumptions = []string{"oracles.json was generated from this image's kernel headers and Go/x-sys sources by oracles/gen.py (provenance inside the file)", "a source that does not list a name says nothing about it"}
 	return finishOrReplay(ctx, replay)
+}
+
+// c12State is a commutative digest of everything the tables expose.
+func c12State() uint64 {
+	var sum uint64
+	mix := func(s string, v int) uint64 {
+		h := uint64(14695981039346656037)
+		for i := 0; i < len(s); i++ {
+			h = (h ^ uint64(s[i])) * 1099511628211
+		}
+		h = (h ^ uint64(uint32(v))) * 1099511628211
+		return h ^ h>>29
+	}
+	for tn, info := range c12Tables() {
+		t := mix(tn+"/"+info.Name, int(info.ID))
+		for n, v := range info.SyscallNames {
+			t += mix("n:"+n, v) * 3
+		}
+		for v, n := range info.SyscallNumbers {
+			t += mix("v:"+n, v) * 5
+		}
+		t += uint64(len(info.SyscallNames))<<32 + uint64(len(info.SyscallNumbers))
+		sum += mix(tn, int(t)) + t*7
+	}
+	for _, n := range []string{"ppc64le", "s390x", "mips", "mips64", "riscv64"} {
+		if i, err := arch.GetInfo(n); err == nil && i != nil {
+			sum += mix("tableless:"+n, len(i.SyscallNames)+1)
+		}
+	}
+	return sum
+}
+
+type c12Op struct {
+	name string
+	run  func()
+}
+
+func c12Stability(ctx *evid.Ctx, tier string) (int, int) {
+	var ops []c12Op
+	spell := []string{"execve", "EXECVE", "Execve", "SYS_execve", "__NR_execve", "sys_execve", "__NR_ptrace", "Openat", "59", "", "nosuchsyscall", "socketcall", "arm_fadvise64_64", "mmap2", "newfstatat", "_llseek", "execve\x00", " execve", "__X32_SYSCALL_BIT"}
+	tabs := c12Tables()
+	var tn []string
+	for n := range tabs {
+		tn = append(tn, n)
+	}
+	sort.Strings(tn)
+	for _, an := range tn {
+		info := tabs[an]
+		for _, sp := range spell {
+			for _, cond := range []bool{false, true} {
+				for _, kind := range []string{"assemble", "validate", "dump"} {
+					if kind != "assemble" && (cond || tier != "thorough" && len(sp) > 8) {
+						continue
+					}
+					an, info, sp, cond, kind := an, info, sp, cond, kind
+					ops = append(ops, c12Op{fmt.Sprintf("%s(%s,%q,cond=%v)", kind, an, sp, cond), func() {
+						defer func() { recover() }()
+						g := seccomp.SyscallGroup{Action: seccomp.ActionErrno}
+						if cond {
+							g.NamesWithCondtions = []seccomp.NameWithConditions{{Name: sp, Conditions: seccomp.ArgumentConditions{{Argument: 1, Operation: seccomp.Equal, Value: 7}}}}
+						} else {
+							g.Names = []string{sp}
+						}
+						p := &seccomp.Policy{DefaultAction: seccomp.ActionAllow, Syscalls: []seccomp.SyscallGroup{g}}
+						seccomp.VerifSetArch(p, info)
+						switch kind {
+						case "assemble":
+							p.Assemble()
+						case "validate":
+							p.Validate()
+						default:
+							p.Dump(io.Discard)
+						}
+					}})
+				}
+			}
+		}
+	}
+	for _, n := range []string{"", "amd64", "AMD64", "x32", "arm64", "ppc64le", "mips", "s390x", "nosucharch", "SYS_amd64"} {
+		n := n
+		ops = append(ops, c12Op{fmt.Sprintf("GetInfo(%q)", n), func() { defer func() { recover() }(); arch.GetInfo(n) }})
+	}
+	init := c12State()
+	seqs := 0
+	bad := func(hist []string) {
+		ctx.Violation("C12:tables-changed-by:"+hist[len(hist)-1], fmt.Sprintf("the architecture tables differ from their initial contents after %v", hist), map[string]any{"history": hist})
+	}
+	// depth 1: every operation from the initial state; depth 2: every ordered pair (a change that needs an earlier operation
+	// to prepare it); in the thorough tier depth 3 over the operations of one architecture at a time
+	changed := false
+	for _, a := range ops {
+		a.run()
+		seqs++
+		if c12State() != init {
+			bad([]string{a.name})
+			changed = true
+			break
+		}
+	}
+	if changed {
+		return seqs, len(ops)
+	}
+	sizes := func() (n int) {
+		for _, info := range tabs {
+			n += len(info.SyscallNames)*100003 + len(info.SyscallNumbers)
+		}
+		return
+	}
+	initSizes := sizes()
+	for _, a := range ops {
+		for _, b := range ops {
+			a.run()
+			b.run()
+			seqs++
+			// quick tier: the map sizes after every pair, the full digest after every row of pairs
+			if sizes() != initSizes || tier == "thorough" && c12State() != init {
+				bad([]string{a.name, b.name})
+				return seqs, len(ops)
+			}
+		}
+		if c12State() != init {
+			bad([]string{a.name, "(one of the operations of the alphabet after it)"})
+			return seqs, len(ops)
+		}
+	}
+	if tier == "thorough" {
+		for _, an := range tn {
+			var sub []c12Op
+			for _, o := range ops {
+				if strings.Contains(o.name, "("+an+",") && strings.HasPrefix(o.name, "assemble") {
+					sub = append(sub, o)
+				}
+			}
+			for _, a := range sub {
+				for _, b := range sub {
+					for _, c := range sub {
+						a.run()
+						b.run()
+						c.run()
+						seqs++
+						if c12State() != init {
+							bad([]string{a.name, b.name, c.name})
+							return seqs, len(ops)
+						}
+					}
+				}
+			}
+		}
+	}
+	return seqs, len(ops)
 }
